@@ -90,7 +90,10 @@ CHECKS = {
             "(torch.linalg.solve_triangular, torch.cholesky_solve, _cholesky_solve, Triangular/Chol/"
             "KroneckerProductTriangular constructors; ~40 decided sites) receives upper= equal to the orientation tag "
             "of the factor it is given, under every assignment of upper/self.upper - a mismatch makes the kernel read "
-            "the wrong triangle. NOT decided: residual accuracy, tolerance, which algorithm the size thresholds select.",
+            "the wrong triangle; (T) on the iterative route linear_cg measures convergence on the true residual, leaves "
+            "early only under the tolerance test and warns on every other path (the C08 stopping rules re-used). NOT "
+            "decided: residual accuracy of the direct routes (Woodbury / Kronecker algebra), which algorithm the size "
+            "thresholds select.",
             TRUST + "; orientation tag rules and class invariants of lo_static/orient.py.", "DESIGN.md section 3, C04"),
     "C06": (True,
             "finite-domain abstract interpretation of orientation tags + dead-parameter lint + producer/consumer "
